@@ -1035,7 +1035,7 @@ def check_symbolic(res: Result, cases: list[dict]) -> None:
             res.count("symbolic-skipped")
             continue
         exp_v = [d.v.v for d in exp]
-        if sum(sp.count_ops(e) for e in exp_v) > 1500:
+        if sum(sp.count_ops(e) for e in exp_v) > 400 or tree_ops(tree).count("div") > 2:
             res.count("symbolic-skipped-large")
             continue
         bad: list[tuple[str, str]] = []
